@@ -48,7 +48,7 @@ ASSUMPTIONS = [
     "element names used by the harness itself are chosen different from the candidate (uniqueness rules are C07)",
     "component names are exercised with a GPU component (a NIC derives service/interface names from it)",
 ]
-BUDGET = {"quick": 100000, "thorough": 2500000}
+BUDGET = {"quick": 50000, "thorough": 2500000}
 MIN_LABEL_FRACTION = {
     "cls:MEMBER": 0.25, "cls:NON-MEMBER": 0.35, "nt": 0.25,
     # (boot-script and capacity cases live in small finite spaces; Hypothesis does not repeat examples)
